@@ -1,5 +1,5 @@
 """C01 - soft/hard state machine.  Generators for the correspondence run."""
-import random, itertools
+import random, itertools, re
 from . import ckgen
 
 PID = 'C01'
@@ -11,10 +11,16 @@ RULE = ('exhaustive result histories over {OK,WARNING,CRITICAL,UNKNOWN}^L x {hos
         'a combined-fixture stream (real Host/Service with parent, Downtime and Comment objects, ops of harness/ops_ckfull.cpp): flapping enabled with thresholds that toggle '
         '(alternating states), acknowledgements through all entry points, downtimes, suppressed-notification timer, pause, parent results and stale results interleaved - '
         'state/state type/attempt/last hard state compared after EVERY operation and the C01 oracle run over the results; '
+        'concurrent results (real threads): 2-4 threads released together call the real ProcessCheckResult on ONE host/service (max 1-4, from pending / hard OK / soft / hard problem, '
+        'volatile on/off) with prepared results - mostly one execution start, some with older/newer stamps -, 300 repetitions per case (3000 thorough) with seed-derived start skews of 0-50 us; '
+        'directed schedules hold thread 0 inside a signal handler right after the snapshot / between the two critical sections / before the event is chosen until the others have returned; '
+        'the set of observed outcomes (shown fields + per-thread result code and events) is judged by the extracted Gallina predicates cc_strict_ok / cc_relaxed_ok (some serial order explains it), not compared with the model; '
         'non-trivial = at least two results and at least one non-OK result; distinct = distinct script text')
 TRUSTED = ['model: coq/Ck/CkState.v (transcription of Checkable::ProcessCheckResult lines 165-301,443-454); '
            'source facts re-extracted each run: enum values, checkable.ti defaults, Host::CalculateState/IsStateOK, Service::IsStateOK (coq/Facts/Facts_enums.v, Facts_c01.v)',
-           'hook H1 (virtual clock) in lib/base/utility.cpp']
+           'hook H1 (virtual clock) in lib/base/utility.cpp',
+           'concurrency model coq/Ck/CkConc.v: ObjectLock is mutual exclusion; what a thread does between two lock operations is one step per group of lines (snapshot / stale test / state-field writes / store of last_check_result / event choice); '
+           'the lock structure is re-read from the source each run (f_pcr_lock_covers_rmw, f_pcr_cr_in_rmw_section, f_pcr_event_type_reread); the real-thread run samples schedules, it does not enumerate them']
 ASSUMPTIONS = ['timestamps are whole seconds (exact in binary64)', 'flapping detection, acknowledgements, downtimes, suppression, parent state and pause do not influence state/state type/attempt/event: proved for the combined model (coq/Ck/CkLayer.v, C01_full_projection*), and compared on the real objects by the combined-fixture stream']
 
 
@@ -74,7 +80,75 @@ def generate(seed, tier):
     ncomb = {'quick': 3000, 'thorough': 20000, 'search': 3000}.get(tier, 3000)
     for i in range(ncomb):
         cases.append(combined_case(rnd))
+    # short concurrent cases first: the runner shrinks/reports the first failing case of a class
+    return concurrent_cases(rnd, tier) + cases
+
+
+START_STATES = ('pending', 'hardok', 'soft', 'hardproblem')
+
+
+def conc_prefix(kind, mx, vol, start):
+    """script prefix that brings a new object into the start state; returns (lines, clock)"""
+    lines = ['now %d' % T0, 'ck_new kind=%s max=%d vol=%d flap=0' % (kind, mx, vol)]
+    t = T0
+    seq = {'pending': (), 'hardok': (0,), 'soft': (0, 2), 'hardproblem': (0,) + (2,) * mx}[start]
+    for s in seq:
+        t += 10
+        lines.append('now %d' % t)
+        lines.append('cr state=%d' % s)
+    t += 10
+    lines.append('now %d' % t)
+    return lines, t
+
+
+def conc_case(kind, mx, vol, start, states, ds, reps, seed, skew=50, park=None, fam='concurrent-real-threads'):
+    lines, _ = conc_prefix(kind, mx, vol, start)
+    l = 'ck_conc states=%s d=%s reps=%d seed=%d skew=%d' % (','.join(map(str, states)), ','.join(map(str, ds)), reps, seed, skew)
+    if park:
+        l += ' park=%s pto=15000' % park
+    lines.append(l)
+    return {'lines': lines, 'tags': {'family': fam}}
+
+
+def concurrent_cases(rnd, tier):
+    reps = {'quick': 300, 'thorough': 3000, 'search': 600}.get(tier, 300)
+    nfree = {'quick': 56, 'thorough': 160, 'search': 80}.get(tier, 56)
+    cases = []
+    # directed: thread 0 is held right after its snapshot of the previous state (under the ObjectLock in the tree as it is)
+    for (kind, mx, start, states) in (('svc', 3, 'hardok', (2, 2)), ('host', 3, 'hardok', (2, 3)), ('svc', 4, 'soft', (2, 1, 3)),
+                                      ('svc', 2, 'hardok', (1, 0)), ('host', 4, 'soft', (2, 2)), ('svc', 3, 'pending', (2, 2))):
+        cases.append(conc_case(kind, mx, 0, start, states, (0,) * len(states), 2, rnd.randint(1, 10 ** 6), skew=0, park='lsr', fam='concurrent-directed-after-snapshot'))
+    # directed: between the two critical sections (an older result overtakes) / before the event is chosen
+    for (kind, mx, start, states, ds) in (('svc', 3, 'hardok', (2, 1), (0, -5)), ('host', 3, 'hardok', (2, 0), (0, -3)), ('svc', 4, 'soft', (0, 2), (0, -5))):
+        cases.append(conc_case(kind, mx, 0, start, states, ds, 2, rnd.randint(1, 10 ** 6), skew=0, park='va', fam='concurrent-directed-between-sections'))
+    for (kind, mx, start, states) in (('svc', 3, 'hardok', (0, 2)), ('host', 2, 'hardok', (1, 2)), ('svc', 3, 'soft', (2, 0))):
+        cases.append(conc_case(kind, mx, 0, start, states, (0,) * len(states), 2, rnd.randint(1, 10 ** 6), skew=0, park='ncr', fam='concurrent-directed-before-event'))
+    # free-running
+    for i in range(nfree):
+        kind = ('svc', 'host')[i % 2]
+        mx = (1, 2, 3, 4)[(i // 2) % 4]
+        start = START_STATES[(i // 8) % 4]
+        n = rnd.choice((2, 2, 3, 3, 4))
+        vol = int(rnd.random() < 0.15)
+        mode = rnd.choice(('problems', 'problems', 'mixed', 'mixed', 'any'))
+        if mode == 'problems':
+            states = [rnd.choice((1, 2, 3)) if kind == 'svc' else rnd.choice((2, 3)) for _ in range(n)]
+        elif mode == 'mixed':
+            states = [0] + [rnd.choice((1, 2, 3)) for _ in range(n - 1)]
+            rnd.shuffle(states)
+        else:
+            states = [rnd.randint(0, 3) for _ in range(n)]
+        if rnd.random() < 0.7:
+            ds = [0] * n
+        else:
+            ds = [rnd.choice((0, 0, -5, -20, 5)) for _ in range(n)]
+        cases.append(conc_case(kind, mx, vol, start, states, ds, reps, rnd.randint(1, 10 ** 6), skew=rnd.choice((0, 5, 20, 50))))
     return cases
+
+
+def canon(lines):
+    """the outcomes of the real-thread runs depend on the schedule: judged by the oracle, not compared"""
+    return [re.sub(r' (obs|pto)=\S*', '', l) if l.startswith('ckc ') else l for l in lines]
 
 
 W_COMB = {'adv': 5, 'result': 9, 'stale': 0.7, 'ack': 1.5, 'unack': 0.6, 'ackread': 0.6, 'cmtimer': 0.3, 'dt_add': 1.2, 'dt_remove': 0.5,
@@ -120,6 +194,11 @@ def combined_case(rnd):
 
 
 def nontrivial(case, impl_lines):
+    for l in case['lines']:
+        if l.startswith('ck_conc'):
+            m = re.search(r'states=(\S+)', l)
+            st = m.group(1).split(',') if m else []
+            return len(st) >= 2 and any(x != '0' for x in st)
     crs = [l for l in case['lines'] if l.startswith('cr ') or l.startswith('crf ')]
     return len(crs) >= 2 and any('state=0' not in l for l in crs)
 
@@ -127,6 +206,9 @@ def nontrivial(case, impl_lines):
 def classify(case, detail, impl_lines):
     if 'crash' in detail:
         return 'crash'
+    m = re.search(r'kind=(conc-[\w-]+)', detail)
+    if m:
+        return m.group(1)
     if 'layering' in detail:
         return 'layering'
     if 'stale' in detail or 'rejected' in detail:
@@ -135,7 +217,7 @@ def classify(case, detail, impl_lines):
 
 
 def keep_line(l):
-    return l.startswith('ck_new') or l.startswith('ckf_new') or l == 'now %d' % T0
+    return l.startswith('ck_new') or l.startswith('ckf_new') or l.startswith('ck_conc') or l == 'now %d' % T0
 
 
 def extra_stats(cases, impl):
@@ -155,4 +237,17 @@ def extra_stats(cases, impl):
                 fl_on += v == '1'
                 if prev is not None and v != prev: fl_toggles += 1
                 prev = v
-    return {'combined_lines_flapping': fl_on, 'combined_flapping_toggles': fl_toggles, 'hard_events': hard, 'soft_events': soft, 'no_event_steps': none, 'rejected_stale_results': rej}
+    conc = {'concurrent_cases': 0, 'concurrent_repetitions': 0, 'concurrent_distinct_outcomes': 0, 'concurrent_cases_with_2plus_outcomes': 0,
+            'concurrent_directed_holds_ended_by_timeout': 0}
+    for c in cases:
+        for l, o in zip([x for x in c['lines'] if x.startswith('ck_conc')], [x for x in impl.get(c['id'], []) if x.startswith('ckc ')]):
+            conc['concurrent_cases'] += 1
+            m = re.search(r'reps=(\d+)', o)
+            conc['concurrent_repetitions'] += int(m.group(1)) if m else 0
+            m = re.search(r'obs=(\S+)', o)
+            k = len(m.group(1).split('|')) if m else 0
+            conc['concurrent_distinct_outcomes'] += k
+            conc['concurrent_cases_with_2plus_outcomes'] += k >= 2
+            m = re.search(r'pto=(\d+)', o)
+            conc['concurrent_directed_holds_ended_by_timeout'] += int(m.group(1)) if m else 0
+    return {**conc, 'combined_lines_flapping': fl_on, 'combined_flapping_toggles': fl_toggles, 'hard_events': hard, 'soft_events': soft, 'no_event_steps': none, 'rejected_stale_results': rej}
